@@ -417,6 +417,13 @@ def check_crop_mask(ctx: Ctx):
                 return not d
             return super().arr_method(a, name, args, kwargs, node)
 
+        def ev_Name(self, e):
+            v = super().ev_Name(e)
+            m = self.root.__dict__.get("_inplace_union", {})
+            if isinstance(v, AMask) and id(v) in m:
+                return m[id(v)]
+            return v
+
         def _union(self, parts):
             flat = []
             for p in parts:
@@ -429,10 +436,18 @@ def check_crop_mask(ctx: Ctx):
             return _UnionMask(flat)
 
         def external_call(self, name, args, kwargs, node):
-            if name in ("numpy.logical_or", "numpy.logical_and", "numpy.logical_xor") and len(args) == 2 and not kwargs:
-                u = self._union(args)
+            if name in ("numpy.logical_or", "numpy.logical_and", "numpy.logical_xor") and len(args) in (2, 3) and not (set(kwargs) - {"out"}):
+                u = self._union(args[:2])
+                out_ = args[2] if len(args) == 3 else kwargs.get("out")
                 if u is not None:
                     u.op = name.rsplit("_", 1)[1]
+                    if out_ is not None:
+                        # result written into an existing mask object: every name bound to it sees the union
+                        if isinstance(out_, AMask) and any(p is out_ for p in args[:2]):
+                            self.root.__dict__.setdefault("_inplace_union", {})[id(out_)] = u
+                            self.root.__dict__.setdefault("_keep2", []).append(out_)
+                            return u
+                        return Unknown("logical op into an unrelated buffer")
                     return u
             if self.prog.is_anchor(name, "utils.numpy_utils:_get_bbox_nd"):
                 self.root.bbox_args.append((args[0] if args else kwargs.get("img"), node))
